@@ -16,8 +16,8 @@ NOTE = ("Trusted: go/ssa translation and the engine's Go semantics (A-SSA), solv
         "history-induction meta-argument; all listed per run in evidence 'assumptions'. Functions of the property's anchor files that "
         "are not yet under contract are outside the claim: %s")
 CLAIMED = {
- "C01": (GENERIC % "HashMap, HashBidiMap, LinkedHashMap, TreeMap (by delegation), TreeBidiMap (all operations incl. Put), RedBlackTree (every operation incl. Remove verified against ghost rank/sequence), AVLTree (Get/Clear/Keys/Values), BTree (construction, in-node search, root split, Clear/Size/Empty). Bounded stand-in (labelled bounded in the evidence, never counted as proved): RedBlackTree.Remove, AVLTree Put/Remove and all BTree tree-level operations are executed on every Put/Remove history of a stated small scope against a model map after every step.",
-         NOTE % "the deductive claim does not cover AVL Put/Remove and the BTree tree-level mutators (bounded stand-in only); RedBlackTree.Remove's package-internal colour precondition is not checked at the wrappers' call sites (it is proved to be preserved by every tree operation).", "DESIGN.md §4 C01"),
+ "C01": (GENERIC % "HashMap, HashBidiMap, LinkedHashMap, TreeMap (by delegation), TreeBidiMap (all operations incl. Put), RedBlackTree (every operation incl. Remove verified against ghost rank/sequence), AVLTree (Get/Clear/Keys/Values; Put, whose recursive driver is verified in the thorough tier and assumed in the quick tier), BTree (construction, in-node search, root split, Clear/Size/Empty). Bounded stand-in (labelled bounded in the evidence, never counted as proved): RedBlackTree.Remove, AVLTree Put/Remove and all BTree tree-level operations are executed on every Put/Remove history of a stated small scope against a model map after every step.",
+         NOTE % "the deductive claim does not cover AVL Remove and the BTree tree-level mutators (bounded stand-in only); RedBlackTree.Remove's package-internal colour precondition is not checked at the wrappers' call sites (it is proved to be preserved by every tree operation).", "DESIGN.md §4 C01"),
  "C02": (GENERIC % "RedBlackTree and AVLTree navigation (Left/Right/Floor/Ceiling/Get over a ghost in-order node sequence with strictly ascending keys as invariant), their iterators and Keys/Values, RedBlackTree.Put preserving order, TreeMap (Min/Max/Floor/Ceiling/Keys/Values), TreeSet.Values, TreeBidiMap Keys/Values.",
          NOTE % "AVL and B-tree mutators (order after those operations is checked by the bounded stand-in only: sorted Keys(), Floor/Ceiling/Left/Right against the model after every step); B-tree navigation.", "DESIGN.md §4 C02"),
  "C03": (GENERIC % "ArrayList, SinglyLinkedList and DoublyLinkedList: every operation named by the statement (Add/Append/Prepend/Insert/Remove/Set/Swap/Sort/Clear/Get/IndexOf/Contains/Size/Values) against one sequence specification, linked lists through a ghost node sequence.",
